@@ -33,12 +33,15 @@ COMPONENTS = {
              "sim: URL fetches (scripted outcomes)", "uuid.uuid4"],
 }
 TECHNIQUE = ("THREADS: deterministic simulation of the loader threads - real threads under a baton-"
-             "passing seeded scheduler, fetch and cache faults injected; history checked against the "
-             "sequential reference execution")
+             "passing seeded scheduler, fetch and cache faults injected; the sequential execution is "
+             "checked against a small executable reference model of the loader (tables, shared cache, "
+             "sources, clock), every scheduled history against the sequential execution")
 LEVEL_TEXT = ("Seeded search over thread interleavings at the granularity the quantifier names (accesses "
               "to the loaded / loading tables, thread start, run and join, plus urlopen and locks). The "
-              "library's own loader threads run real code; only who runs next is simulated. Each "
-              "scheduled run is judged against the sequential execution of the same script: no call "
+              "library's own loader threads run real code; only who runs next is simulated. The "
+              "sequential execution of every script is judged against an executable reference model "
+              "written from the statement (None or the exact set of resource versions per load), each "
+              "scheduled run against the sequential execution of the same script: no call "
               "raises, the run terminates (no deadlock, step cap), load results equal the reference, "
               "repeated loads return the same object until refresh, failed fetches leave the cache "
               "untouched, no loader is left alive at quiescence.")
